@@ -143,7 +143,7 @@ fn res<Z: Quantity>(z: Z) -> Value where Z::UnitType: Debug { json!([amt(z.amoun
 def enumerate_definitions(tier):
     defs = []
     n = 0
-    for d in defgen.ref_definitions(tier) + defgen.big_ref_definitions(tier) + defgen.tiny_ref_definitions(tier) + defgen.noref_definitions(tier):
+    for d in defgen.ref_definitions(tier) + defgen.big_ref_definitions(tier) + defgen.huge_ref_definitions(tier) + defgen.long_literal_definitions(tier) + defgen.tiny_ref_definitions(tier) + defgen.noref_definitions(tier):
         defs.append(defgen.uniquify(d, n))
         n += 1
     # derived: each result-type shape declared as A*B, A/B, A*A, AmountT/A over two fresh base definitions
@@ -228,12 +228,18 @@ def val(v):
     return Fraction(int(v["c"]), 10 ** int(v["n"]))
 
 
+LOOSE = [False]  # set per definition: scales with more digits than the amount type's arithmetic keeps exact
+
+
 def close(got, want, backend):
     g = val(got)
     if g is None:
         return False
-    if backend == "dec":
+    if backend == "dec" and not LOOSE[0]:
         return g == want
+    if backend == "dec":
+        # rounded to 18 fractional digits at every step of the expression
+        return abs(g - want) <= abs(want) * Fraction(1, 10 ** 12) + Fraction(4, 10 ** 18)
     if want == 0:
         return abs(g) <= Fraction(1, 10 ** 15)
     return abs(g - want) <= abs(want) * Fraction(1, 10 ** 12)
@@ -263,6 +269,8 @@ def check_definition(d, rec, backend, problems):
     """compare one dumped record with the model; append (class, detail) to problems"""
     reg = defgen.expected_registry(d)
     name = d["name"]
+    LOOSE[0] = bool(d.get("loose"))
+    exact_key = (lambda x: float(x)) if backend == "f64" else (lambda x: x)
 
     def bad(cls, what, got, want):
         problems.append((cls, {"definition": defgen.render(d), "what": what}, json.dumps(got, ensure_ascii=False)[:300], json.dumps(want, ensure_ascii=False)[:300]))
@@ -310,7 +318,7 @@ def check_definition(d, rec, backend, problems):
                 bad("C11/scale", "scale() of %s (literal %s)" % (gu["v"], w["lit"]), gs["scale"], str(want))
             if gs["is_ref"] != w["is_ref"]:
                 bad("C11/ref-unit", "is_ref_unit() of %s" % gu["v"], gs["is_ref"], w["is_ref"])
-            first = next(u["variant"] for u in reg if float(u["scale"]) == float(w["scale"]))
+            first = next(u["variant"] for u in reg if exact_key(u["scale"]) == exact_key(w["scale"]))
             if gs["by_scale"] != first:
                 bad("C11/lookup-by-scale", "unit_from_scale(scale of %s)" % gu["v"], gs["by_scale"], first)
         si, sj = ui["scale"], uj["scale"]
